@@ -100,6 +100,8 @@ func Pre(d *D, s *S) error  { return tr.HitErr("pre") }
 func Post(d *D, s *S) error { return tr.HitErr("post") }
 `
 
+type c07Extra struct{}
+
 type c07Meta struct {
 	Present []int // pre, conv1, conv2, nconv1, nconv2, ge1, post, nnconv1 (depth 2), tconv1 (concrete error type)
 	Style   int
@@ -155,6 +157,26 @@ func familyC07() []*scen.Cell {
 func init() {
 	register("C07", "fault_enumeration", func(e *Env) {
 		cells := familyC07()
+		// static extras: an error-returning member that default matching could pick up, and a hook shared by two methods
+		for i, v := range []struct {
+			notes []string
+			sigs  []string
+		}{
+			{[]string{":getter"}, []string{"Conv(*S) *DG"}},
+			{[]string{":getter", ":case:off"}, []string{"Conv(*S) *DG"}},
+			{[]string{":getter", ":typecast"}, []string{"Conv(*S) *DG"}},
+			{[]string{":postprocess PostG"}, []string{"AConv(*S) (*DG, error)", "BConv(*S) *DG"}},
+			{[]string{":preprocess PostG"}, []string{"AConv(*S) (*DG, error)", "BConv(*S) *DG"}},
+		} {
+			decls := c07Decls + "\ntype DG struct {\n\tGE int\n\tge int\n\tA int\n}\n\nfunc PostG(d *DG, s *S) error { return tr.HitErr(\"post\") }\n"
+			var methods []scen.MethodDecl
+			for _, sg := range v.sigs {
+				methods = append(methods, scen.MethodDecl{Notations: v.notes, Sig: sg})
+			}
+			setup := scen.SetupFile(false, decls, nil, methods)
+			setup = strings.Replace(setup, "package x\n", "package x\n\nimport \"example.com/m/tr\"\n", 1)
+			cells = append(cells, &scen.Cell{ID: fmt.Sprintf("c07x_%d", i), Family: "C07-static-extras", Files: map[string]string{"setup.go": setup}, Meta: c07Extra{}})
+		}
 		e.Rep.Rule("functions with k = 1..5 error-capable call sites drawn from {preprocess hook, two top-level :conv, two nested-path :conv, :map of an error-returning getter, postprocess hook} (plus a depth-2 nested :conv and a converter whose error result is a concrete type; all subsets of size 1..5) x style {return, arg} x destination {value, pointer} x method {with, without error result}; " +
 			"dynamic: every function with an error result is run under ALL 2^k subsets of failing sites; each site returns its own sentinel error; oracle: with i the first site in the observed trace whose bit is set, the function returns exactly that sentinel and the trace ends at i; no executed site failing => nil error; " +
 			"static: a method without error result must be rejected or leave the path unmatched - an accepted output must not call any error-returning site; non-trivial = fault plan with a failing site")
@@ -167,6 +189,30 @@ func init() {
 		skipped := map[string]int{}
 		e.Explore(cells, func(o *scen.Outcome, t *report.Tally) []report.Finding {
 			t.AddEvaluations(1)
+			if _, ok := o.Cell.Meta.(c07Extra); ok {
+				t.AddValidated(1)
+				t.Family("C07-static-extras", o.Res.Exit == 0, true)
+				if o.Res.Crashed() {
+					return []report.Finding{{Key: "C07|crash|static-extras", What: clip(o.Res.Stderr, 300)}}
+				}
+				if o.Res.Exit != 0 {
+					return nil // refusing is one way of not wiring it
+				}
+				// accepted: no function without error result may call an error-returning callee
+				var fs []report.Finding
+				for name, txt := range funcTexts(o.Out) {
+					head := txt[:strings.IndexByte(txt, '\n')]
+					if strings.Contains(head, "err error") {
+						continue
+					}
+					for _, callee := range []string{".GE()", "PostG("} {
+						if strings.Contains(txt, callee) {
+							fs = append(fs, report.Finding{Key: "C07|error-site-in-function-without-error-result|" + strings.Trim(callee, ".("), What: "function " + name + " has no error result but calls the error-returning " + callee + ")"})
+						}
+					}
+				}
+				return fs
+			}
 			m := o.Cell.Meta.(c07Meta)
 			feat := fmt.Sprintf("style=%d|dstptr=%d|sites=%s", m.Style, m.DstPtr, strings.Join(m.Sites, "+"))
 			if o.Res.Crashed() || o.Res.TimedOut {
